@@ -283,7 +283,9 @@ def judge_c02(scn, run) -> Tuple[List[Viol], Dict[str, int]]:
             continue
         cnt(c, "probe:op:" + op.kind)
         if len(op.units) < 2:
-            if op.outcome[0] == "exc":
+            if op.outcome[0] == "exc" and "TimeoutError" in op.outcome[3]:
+                cnt(c, "grey:library-timeout")
+            elif op.outcome[0] == "exc":
                 v.append(("C02/accepted-raised/%s/%s" % (op.kind, op.outcome[1]),
                           "%s(%s) is inside the accepted domain but raised %s: %s" % (
                               op.kind, op.args, op.outcome[1], op.outcome[2])))
@@ -361,7 +363,8 @@ def expected_sequence_ok(op, kinds: List[str], type_: int) -> Optional[str]:
         return None
     else:
         exp = [login, CMD_KIND[op.kind]]
-    if returned:
+    unsuccessful = returned and isinstance(op.outcome[1], dict) and op.outcome[1].get("successful") is False
+    if returned and not unsuccessful:
         if kinds != exp:
             return "returned normally after frames %s, protocol says %s" % (kinds, exp)
     else:
@@ -416,6 +419,8 @@ def judge_c03(scn, run) -> Tuple[List[Viol], Dict[str, int]]:
                 # session some EARLIER login handed out (that would be a leak between operations)
                 cnt(c, "grey:login-reply-without-session")
                 whose = seen_sessions.get(bytes(u[8:12]))
+                if lr is not None and bytes(u[8:12]) == (bytes(lr[8:12]) + b"\x00" * 4)[:4]:
+                    whose = None          # this login's own (short) session, zero-padded
                 # (only when the header is intact - terminator where it belongs - i.e. a whole 4-byte session was
                 # put in; with the short session of the unchanged code every later byte is shifted)
                 if whose is not None and u[38:40] == b"\xf0\xfe" and (whose[0] != cl.idx or whose[1] != op.uid):
@@ -440,7 +445,9 @@ def judge_c03(scn, run) -> Tuple[List[Viol], Dict[str, int]]:
             if u[40:43] != devid:
                 v.append(("C03/foreign-device-id/%s" % op.kind,
                           "%s frame %d carries device id %s, configured %s" % (op.kind, i, u[40:43].hex(), devid.hex())))
-        if lr is not None and len(lr) >= 12:
+        if lr is not None and len(lr) >= 12 and op.exchanges and op.exchanges[0].kind in ("login1", "login2") \
+                and op.exchanges[0].mode == "ok" and op.exchanges[0].sent == lr:
+            # (only what an intact login exchange handed out counts as "a session issued to ...")
             seen_sessions[bytes(lr[8:12])] = (cl.idx, op.uid)
         if len(run.clients) > 1:
             cnt(c, "probe:two-instances")
@@ -691,9 +698,12 @@ def judge_c16(scn, run) -> Tuple[List[Viol], Dict[str, int]]:
                     snap = ex.snapshot
                     break
         if main:
-            all_given = {"state", "mode", "target", "fan", "swing"} <= given
+            # what would have to be inherited from the device: any omitted setting (swing does not enter the key of a
+            # separate-swing remote), and for a toggle remote the previous power state when an IR code is chosen
+            needed = {"state", "mode", "target", "fan"} | (set() if special and not upd else {"swing"})
+            all_given = needed <= given
             if snap is None:
-                if toggle or not all_given:
+                if (toggle and not upd) or not all_given:
                     # an omitted setting (or, for a toggle remote, the previous power state) can only come from the device
                     v.append(("C16/no-state-query", "control_breeze_device(%s) did not ask the device for its state; frames %s" % (a, kinds)))
                     continue
@@ -703,7 +713,7 @@ def judge_c16(scn, run) -> Tuple[List[Viol], Dict[str, int]]:
                 "mode": MODE_NUM[a["mode"]] if a.get("mode") else snap["mode"],
                 "target": a["target"] if a.get("target") else snap["target"],
                 "fan": FAN_NUM[a["fan"]] if a.get("fan") else snap["fan"],
-                "swing": (a["swing"] == "ON") if a.get("swing") else bool(snap["swing"]),
+                "swing": (a["swing"] == "ON") if a.get("swing") else (bool(snap["swing"]) if snap else False),
             }
             if not upd:
                 key_swing = False if special else merged["swing"]
